@@ -190,7 +190,7 @@ func (t *tracingResponseWriter) tryFinish(err error) {
 
 	t.finished = true
 	t.dataTracer.emitUnfinished()
-	t.setTrailers()
+	t.builder.whileOpen(t.setTrailers)
 	t.builder.add(&ResponseBodyEnd{Err: err})
 }
 
